@@ -275,9 +275,25 @@ def evaluate(case):
         ambs += [float(v) for v in net.pipe.text_k.values if not math.isnan(v)]
     if feeds:
         lo, hi = min(feeds + ambs), max(feeds + ambs)
-        temps = [(("junction", int(j)), tj.at[j]) for j in tj.index if hyd_ok.at[j] and not np.isnan(tj.at[j])
-                 and any((s["up"] == j or s["down"] == j) and s["m"] > flow_thr for s in sts)]
-        temps += [((s["table"], s["index"]), s["t_out"]) for s in sts if s["m"] > flow_thr]
+        # only where fluid from a feed really passes: a region without net flow can carry a circulation (two parallel
+        # connections; its size is only determined to round-off of the pressures, 1e-3 kg/s seen) whose temperature is
+        # whatever it started with - no statement about it. Reached = downstream of a temperature feed along streams that
+        # carry more than 1e-6 of the largest flow.
+        sig_thr = max(flow_thr, 1e-6 * max([s["m"] for s in sts] + [0.0]))
+        reached = set(fixed)
+        for t in ("circ_pump_pressure", "circ_pump_mass"):
+            if t in net and len(net[t]):
+                reached |= {int(j) for j in net[t].flow_junction[net[t].in_service].values}
+        grew = True
+        while grew:
+            grew = False
+            for s in sts:
+                if s["m"] > sig_thr and s["up"] in reached and s["down"] not in reached:
+                    reached.add(s["down"])
+                    grew = True
+        temps = [(("junction", int(j)), tj.at[j]) for j in tj.index if hyd_ok.at[j] and not np.isnan(tj.at[j]) and int(j) in reached
+                 and any(s["down"] == j and s["m"] > sig_thr for s in sts)]
+        temps += [((s["table"], s["index"]), s["t_out"]) for s in sts if s["m"] > sig_thr and s["up"] in reached]
         for who, tv in temps:
             if not q_neg and tv > hi + 1e-6:
                 f.append(Finding("bounds", "C10.bounds.above", {"where": who, "t": tv, "max_feed_ambient": hi}))
